@@ -21,10 +21,12 @@ theorem writeData_refused_unchanged (m : M) (hdt : m.dt = some .double) (e : Nix
     beq_self_eq_true, Bool.and_self, Bool.and_true, if_true]
   by_cases hc : (m.x.elems.all fun x => x.convOk) = true
   · simp only [hc, if_true]
+    have hdd : (some DT.double == some DT.string) = false := by decide
+    simp only [hdd, Bool.false_and, Bool.false_eq_true, if_false]
     cases hds : m.file.ds with
-    | none => simp [hds]
+    | none => simp
     | some d =>
-      simp only [hds]
+      simp only
       by_cases hr : (d.rank != m.x.rank) = true
       · simp [hr]
       · simp [hr]
@@ -40,15 +42,34 @@ theorem writeData_accepted (m : M) (hdt : m.dt = some .double)
     beq_self_eq_true, Bool.and_self, Bool.and_true, if_true]
   by_cases hc : (m.x.elems.all fun x => x.convOk) = true
   · simp only [hc, if_true]
+    have hdd : (some DT.double == some DT.string) = false := by decide
+    simp only [hdd, Bool.false_and, Bool.false_eq_true, if_false]
     cases hds : m.file.ds with
-    | none => simp [hds]
+    | none => simp
     | some d =>
-      simp only [hds]
+      simp only
       by_cases hr : (d.rank != m.x.rank) = true
       · simp [hr]
       · have : d.rank = m.x.rank := by simpa using hr
         simp [hr, this]
   · simp [hc]
+
+/-- `H5Group.write_data` with a text dtype (`Tag.units`, `SetDimension.labels`): text h5py cannot store is refused
+before the dataset is resized or created (`hh5`: text that passes the test is text h5py writes) -/
+theorem writeData_text_refused_unchanged (m : M) (hdt : m.dt = some .string) (hconv : m.converted = false)
+    (hh5 : ∀ y ∈ m.x.elems, y.typeOk = true → y.h5Ok = true) (e : Nix.Err)
+    (h : (runWith.runFlat writeDataSteps m).2 = some e) : (runWith.runFlat writeDataSteps m).1.file = m.file := by
+  revert h
+  simp only [writeDataSteps, runWith.runFlat, step, guardHolds, List.all_cons, List.all_nil]
+  by_cases ht : (m.x.elems.all fun x => x.typeOk) = true
+  · have hall : (m.x.elems.all fun x => x.h5Ok) = true := by
+      rw [List.all_eq_true] at ht ⊢
+      intro y hy
+      exact hh5 y hy (ht y hy)
+    cases hds : m.file.ds with
+    | none => simp [hdt, hconv, ht, hall, hds]
+    | some d => by_cases hr : d.rank = m.x.rank <;> simp [hdt, hconv, ht, hall, hds, hr]
+  · simp [hdt, hconv, ht]
 
 private theorem runWith_callWriteData (wd : List Step) (dt : Option DT) (rest : List Step) (m : M) :
     runWith wd (.callWriteData dt :: rest) m =
